@@ -223,6 +223,10 @@ func createASTTypeExpr(pkg string, t types.Type, varPool *VarPool, imports map[s
 		if err != nil {
 			return nil, fmt.Errorf("chan element: %w", err)
 		}
+		if elem, ok := typ.Elem().(*types.Chan); ok && typ.Dir() == types.SendRecv && elem.Dir() == types.RecvOnly {
+			// chan (<-chan T) needs its parentheses: chan <-chan T is read as chan<- (chan T)
+			expr = &ast.ParenExpr{X: expr}
+		}
 
 		return &ast.ChanType{
 			Dir:   dir,
